@@ -12,8 +12,13 @@ OUTSIDE = ["IEEE rounding of the index computation", "more cells per axis than t
 
 def entries(tier):
     n = 4 if tier == "quick" else 8
-    return [Entry("c13_interval_d2", params=dict(maxcells=n), concretize_fptoi=True),
-            Entry("c13_interval_f3", params=dict(maxcells=3 if tier=="quick" else 5), concretize_fptoi=True)]
+    es = [Entry("c13_interval_d2", params=dict(maxcells=n, fixres=0), concretize_fptoi=True, note="symbolic resolution", budget=dict(time=150, enum_ms=3000)),
+          Entry("c13_interval_f3", params=dict(maxcells=3 if tier == "quick" else 5, fixres=0), concretize_fptoi=True, note="symbolic resolution", budget=dict(time=150, enum_ms=3000))]
+    # concrete resolutions: the index arithmetic is linear, every enumeration is complete
+    for res in ([0.25, 1.0] if tier == "quick" else [0.25, 1.0, 0.1, 1e-3, 10.0]):
+        es.append(Entry("c13_interval_d2", params=dict(maxcells=n + 2, fixres=res), concretize_fptoi=True, shard=4))
+        es.append(Entry("c13_interval_f3", params=dict(maxcells=3 if tier == "quick" else 4, fixres=res), concretize_fptoi=True, shard=4))
+    return es
 
 def tv_vectors(tier):
-    return [("c13_interval_d2", dict(maxcells=100), dict(lo0=-1.0,lo1=-2.0,up0=3.0,up1=1.5,p0=0.3,p1=1.2,res=0.25))]
+    return [("c13_interval_d2", dict(maxcells=100, fixres=0), dict(lo0=-1.0,lo1=-2.0,up0=3.0,up1=1.5,p0=0.3,p1=1.2,res=0.25))]
